@@ -181,6 +181,13 @@ def _mode_geometry(model: Model, rep: Report) -> None:
     sv = "".join(unparse(fv.node).split())
     okv = "x1=self._curpos+1" in sv and sv.index("x1+=dx") < sv.index("x1=max(0,min(self.width,x1))") and "x0=max(0,self._curpos)" in sv
     r5.check(okv, site(fv), fv.qualname, "vertical mode: a1 = b1 + offset, clamped to the row; the run starts at a0", why="offset/clamp changed")
+    # each new row starts from a fresh all-white line; the finished row becomes the reference
+    rl = model.func(C + "CCITTG4Parser._reset_line")
+    srl = "".join(unparse(rl.node).split())
+    r5.check("self._refline=self._curline" in srl and "self._curline=array.array('b',[1]*self.width)" in srl and srl.index("self._refline=self._curline") < srl.index("self._curline=array.array(") and "self._curpos=-1" in srl and "self._color=1" in srl, site(rl), rl.qualname, "new row: reference := finished row, current := new all-white row, a0 before the row, colour white", why="row reset changed: a recycled buffer keeps the pixels of the row before last")
+    tests_v = ["".join(unparse(n.test).split()) for n in walk_no_nested(fv.node) if isinstance(n, ast.If) and any(isinstance(x, ast.For) for x in n.body)]
+    paints = ["".join(unparse(n).split()) for n in walk_no_nested(fv.node) if isinstance(n, ast.Assign) and unparse(n.targets[0]).startswith("self._curline[")]
+    r5.check(sorted(tests_v) == ["x0<x1", "x1<x0"] and paints == ["self._curline[x]=self._color"] * 2, site(fv), fv.qualname, "vertical mode paints the run from a0 to a1 in the current colour, whatever the colour (white runs too)", why=f"paint conditions {tests_v}, paint statements {paints}: skipping a colour relies on what the buffer held before")
     sp = "".join(unparse(fp.node).split())
     r5.check("x1=self._curpos+1" in sp and "forxinrange(self._curpos,x1):self._curline[x]=self._color" in sp and sp.rstrip().endswith("self._curpos=x1"), site(fp), fp.qualname, "pass mode: pixels up to b2 take the current colour, a0 moves to b2, the colour is kept", why="pass mode body changed")
 
